@@ -21,7 +21,7 @@ import torch.nn as nn
 import inferno
 from inferno.core.infrastructure import RecordTensor
 
-from mc.common import Tally
+from mc.common import Tally, scribble
 from mc.explore import explore
 from mc.pool import run_shards
 
@@ -163,6 +163,14 @@ class RingSystem:
                             yield ("writerange", L, o, fwd, ip, kind)
 
     # ---- one transition on impl + model, with oracle ------------------------------
+    @staticmethod
+    def after_write(name, obs, keep, bad, check):
+        """the caller's observation must come back untouched, and the record must hold a copy of it, not an alias:
+        the tensor is overwritten right after the call, before the record is compared with the model"""
+        if check and not torch.equal(obs, keep):
+            bad.append((f"input-mutated:{name}", f"{name} modified the caller's observation tensor in place", keep.tolist(), obs.tolist()))
+        scribble(obs)
+
     def step(self, st, op, check=True):
         N, E = self.N, self.E
         bad = []
@@ -179,10 +187,12 @@ class RingSystem:
         try:
             if name == "push" or name == "setlatest":
                 vals, obs = self.obs_tensor(st)
+                keep = obs.clone()
                 if name == "push":
                     rt.push(obs, inplace=op[1])
                 else:
                     rt.latest = obs
+                self.after_write(name, obs, keep, bad, check)
                 if not st.init:
                     st.init = True
                 M[0] = list(vals)
@@ -206,7 +216,9 @@ class RingSystem:
                 expect_ret = ("obs", M[op[1] % N])
             elif name == "write":
                 vals, obs = self.obs_tensor(st)
+                keep = obs.clone()
                 rt.write(obs, op[1], inplace=op[2])
+                self.after_write(name, obs, keep, bad, check)
                 M[op[1] % N] = list(vals)
                 st.step += 1
             elif name == "incr":
@@ -244,7 +256,9 @@ class RingSystem:
                 _, L, o, fwd, ip, kind = op
                 offs, arg = self.offsets(o, kind)
                 vals, obs = self.obs_tensor(st, L)
+                keep = obs.clone()
                 rt.writerange(obs, arg, forward=fwd, inplace=ip)
+                self.after_write(name, obs, keep, bad, check)
                 newM = [list(r) for r in M]
                 for e in range(E):
                     for j in range(L):
